@@ -1,5 +1,13 @@
 package sm2
 
+import (
+	"crypto/ecdsa"
+	"math/big"
+
+	"github.com/emmansun/gmsm/internal/bigmod"
+	_sm2ec "github.com/emmansun/gmsm/internal/sm2ec"
+)
+
 // C06 (narrow): the signature parser's accept set.
 
 // reference: strict DER SEQUENCE { INTEGER r, INTEGER s }, both non-negative and minimally encoded, no
@@ -139,6 +147,291 @@ func verifH_c06_encode() {
 		}
 		wr, ws := strip(r), strip(s)
 		verifAssert(len(pr) == len(wr) && len(ps) == len(ws) && verifEqBytes(pr, wr) && verifEqBytes(ps, ws), "and returns the same integers")
+	}
+	verifReach("end")
+}
+
+// ---- GB/T 32918.2 signing and verification as DATA FLOW over the abstract arithmetic ----------------
+// Scalar-field multiplication/inversion and the group operations are uninterpreted (the same functions
+// the models in harness/internal/{bigmod,sm2ec} hand to the code); additions, subtractions, reductions,
+// comparisons with zero and with n, and the control flow (retries, rejections) are decided exactly.
+
+var c06One = append(make([]byte, 31), 1)
+
+// modular addition/subtraction/reduction are the library's own limb code (internal/bigmod), which is
+// proved equal to integer arithmetic modulo n separately (verifH_bigmod_addsub); using it here keeps
+// the obligations of the data-flow harnesses syntactic.
+// curve context for the harnesses that abstract modular addition/subtraction: n-1 and n-2 as constants
+func c06Curve() *sm2Curve {
+	c := c12Curve()
+	if verifSymbolic() {
+		c.nMinus1 = bigmod.VerifNatRaw(c12NMinus1, c.N)
+		nm2 := append([]byte(nil), c12NMinus1...)
+		nm2[31]--
+		c.nMinus2 = nm2
+	}
+	return c
+}
+
+func c06Nat(c *sm2Curve, x []byte) *bigmod.Nat { return bigmod.VerifNatRaw(x, c.N) }
+
+// x < 2^256 < 2n  ->  x mod n
+func c06Reduce(c *sm2Curve, x []byte) []byte {
+	n, err := bigmod.NewNat().SetOverflowingBytes(x, c.N)
+	if err != nil {
+		panic("c06Reduce")
+	}
+	return n.Bytes(c.N)
+}
+
+func c06AddN(c *sm2Curve, a, b []byte) []byte { return c06Nat(c, a).Add(c06Nat(c, b), c.N).Bytes(c.N) }
+
+func c06SubN(c *sm2Curve, a, b []byte) []byte { return c06Nat(c, a).Sub(c06Nat(c, b), c.N).Bytes(c.N) }
+
+func c06IsZero(c *sm2Curve, x []byte) bool { return bigmod.VerifIsZero(x, c.N) }
+
+// in [1, n-1]
+func c06InRange(c *sm2Curve, x []byte) bool {
+	return verifAll(bigmod.VerifBelow(x, c.N), !bigmod.VerifIsZero(x, c.N))
+}
+
+func c06Big(b []byte) *big.Int { return new(big.Int).SetBytes(b) }
+
+func c06Mul(a, b []byte) []byte {
+	if verifSymbolic() {
+		return verifUF("fn.mul.comm", 32, a, b)
+	}
+	r := new(big.Int).Mul(c06Big(a), c06Big(b))
+	return r.Mod(r, c06Big(c12N)).FillBytes(make([]byte, 32))
+}
+
+func c06Inv(a []byte) []byte {
+	if verifSymbolic() {
+		return verifUF("fn.inv", 32, a)
+	}
+	r := new(big.Int).ModInverse(c06Big(a), c06Big(c12N))
+	if r == nil {
+		return make([]byte, 32)
+	}
+	return r.FillBytes(make([]byte, 32))
+}
+
+// affine coordinates of [k]G
+func c06G(c *sm2Curve, k []byte) (x, y []byte) {
+	if verifSymbolic() {
+		return verifUF("G.x", 32, k), verifUF("G.y", 32, k)
+	}
+	p, err := c.newPoint().ScalarBaseMult(k)
+	if err != nil {
+		return make([]byte, 32), make([]byte, 32)
+	}
+	b := p.Bytes()
+	if len(b) != 65 {
+		return make([]byte, 32), make([]byte, 32)
+	}
+	return b[1:33], b[33:]
+}
+
+// one pass of the signing loop with nonce k (in range): r = (e + x1) mod n, s = (1+d)^-1 (k - r d) mod n;
+// bad: the standard asks for another nonce (r = 0, r + k = n, or s = 0)
+func c06SignSpec(c *sm2Curve, k, d, e []byte) (r, s []byte, bad bool) {
+	x1, _ := c06G(c, k)
+	r = c06AddN(c, c06Reduce(c, x1), e)
+	t := c06AddN(c, k, r)
+	rd := c06Mul(d, r)
+	inv := c06Inv(c06AddN(c, d, c06One))
+	s = c06Mul(c06SubN(c, k, rd), inv)
+	bad = verifAny(c06IsZero(c, r), c06IsZero(c, t), c06IsZero(c, s))
+	return
+}
+
+// summary of encodeSignature for the data-flow harness: hands the operands over (ghost) and returns a
+// fixed-size stand-in
+var c06SigR, c06SigS []byte
+
+func verifModel_encodeSignature(r, s []byte) ([]byte, error) {
+	c06SigR, c06SigS = append([]byte(nil), r...), append([]byte(nil), s...)
+	return append(append([]byte{0x30}, r...), s...), nil
+}
+
+func c06Pad32(b []byte) []byte {
+	if len(b) >= 32 {
+		return b[len(b)-32:]
+	}
+	return append(make([]byte, 32-len(b)), b...)
+}
+
+// signSM2EC on a valid key with a scripted source (two blocks, then failure): the signature is the
+// standard's (r, s) for the FIRST delivered block that is in range and needs no retry; every earlier
+// block was unacceptable (out of range, or r = 0, r + k = n, s = 0); each pass uses the unmodified d.
+func verifH_c06_signspec() {
+	c := c06Curve()
+	d := verifBytes("d", 32)
+	verifAssume(verifAll(c06InRange(c, d), !verifEqBytes(d, c12NMinus1)))
+	verifAssume(d[0] != 0)
+	priv := c12Priv(d, d, d)
+	hash := verifBytes("hash", 32)
+	k1, k2 := verifBytes("k1", 32), verifBytes("k2", 32)
+	if verifSymbolic() {
+		verifAssume(!c06IsZero(c, c06AddN(c, d, c06One)))                   // d != n-1, so d + 1 != 0 (addition is abstract here)
+		verifAssume(bigmod.VerifBelow(c06Inv(c06AddN(c, d, c06One)), c.N)) // an inverse modulo n lies below n
+		e := c06Reduce(c, hash)
+		for _, k := range [][]byte{k1, k2} {
+			_, _, _ = c06SignSpec(c, k, d, e)
+		}
+	} else if k1[31]&3 == 1 && c12InRange(k1) && c12InRange(k2) {
+		// native instance finder for the retry paths: choose the digest so that the first pass ends
+		// with s = 0, i.e. k1 = r1 d, e = r1 - x([k1]G) ...
+		r1 := c06Mul(k1, c06Inv(d))
+		x1, _ := c06G(c, k1)
+		hash = c06SubN(c, r1, c06Reduce(c, x1))
+	} else if k1[31]&3 == 2 && c12InRange(k1) && c12InRange(k2) {
+		// ... or with r + k = n, i.e. e = -k1 - x([k1]G)
+		x1, _ := c06G(c, k1)
+		hash = c06SubN(c, c06SubN(c, make([]byte, 32), k1), c06Reduce(c, x1))
+	}
+	rd := &c12Reader{failAt: 3, mode: 1, preset: [][]byte{k1, k2}}
+	sig, err := signSM2EC(c, priv, rd, hash)
+	e := c06Reduce(c, hash)
+	n := len(rd.given)
+	for i, k := range rd.given {
+		r, s, bad := c06SignSpec(c, k, d, e)
+		ok := verifAll(c06InRange(c, k), !bad)
+		if err == nil && i == n-1 {
+			verifAssert(ok, "the nonce of the returned signature is in range and needs no retry")
+			var pr, ps []byte
+			var perr error
+			if verifSymbolic() {
+				// the DER encoder is summarised (verifModel_encodeSignature hands over the operands);
+				// encoder and parser are decided for every (r, s) by verifH_c06_encode / verifH_c06_parse
+				pr, ps = c06SigR, c06SigS
+				verifAssert(len(sig) == 65 && len(pr) == 32 && len(ps) == 32, "the signature is what the encoder returned")
+			} else {
+				pr, ps, perr = parseSignature(sig)
+			}
+			verifAssert(perr == nil && len(pr) <= 32 && len(ps) <= 32, "a strict DER pair of at most 32-byte integers comes back")
+			if perr == nil && len(pr) <= 32 && len(ps) <= 32 {
+				verifAssert(verifEqBytes(c06Pad32(pr), r), "r = (e + x1) mod n for the accepted nonce")
+				verifAssert(verifEqBytes(c06Pad32(ps), s), "s = (1+d)^-1 (k - r d) mod n with the caller's d, on every pass")
+			}
+		} else {
+			verifAssert(!ok, "a block is passed over only if it is out of range or the standard asks for a retry")
+		}
+	}
+	if err != nil {
+		verifAssert(sig == nil, "no signature on failure")
+		verifAssert(rd.calls >= 3, "signing fails only when the random source fails")
+		verifReach("failed")
+	} else {
+		verifAssert(n >= 1, "a signature needs a nonce")
+		if n == 2 {
+			_, _, bad1 := c06SignSpec(c, rd.given[0], d, e)
+			if verifAll(c06InRange(c, rd.given[0]), bad1) {
+				verifReach("retried") // first nonce in range, but r = 0, r + k = n or s = 0
+			}
+		}
+		verifReach("signed")
+	}
+	verifReach("end")
+}
+
+// minimal DER INTEGER of a 32-byte magnitude with lz leading zero bytes (lz = 32: the value zero)
+func c06EncInt(out, v []byte, lz int) []byte {
+	if lz >= 32 {
+		return append(out, 2, 1, 0)
+	}
+	m := v[lz:]
+	if m[0]&0x80 != 0 {
+		out = append(out, 2, byte(len(m)+1), 0)
+	} else {
+		out = append(out, 2, byte(len(m)))
+	}
+	return append(out, m...)
+}
+
+// verifySM2EC returns true exactly if r, s in [1, n-1], the key is a curve point with canonical
+// coordinates, t = r + s != 0 mod n, [s]G + [t]Q is finite and (e + x1) mod n = r.
+func verifH_c06_verifyspec() {
+	lzr, lzs := verifParam("lzr"), verifParam("lzs")
+	c := c06Curve()
+	r, s := verifBytes("r", 32), verifBytes("s", 32)
+	for i := 0; i < 32; i++ {
+		if i < lzr {
+			r[i] = 0
+		} else if i == lzr {
+			verifAssume(r[i] != 0)
+		}
+		if i < lzs {
+			s[i] = 0
+		} else if i == lzs {
+			verifAssume(s[i] != 0)
+		}
+	}
+	qx, qy := verifBytes("qx", 32), verifBytes("qy", 32)
+	verifAssume(qx[0] != 0) // full-length coordinates: one math/big length class
+	verifAssume(qy[0] != 0)
+	hash := verifBytes("hash", 32)
+	if !verifSymbolic() {
+		// native instance finder: a real public key; (r, s) are the replayed / random values
+		dq := append([]byte(nil), qx...)
+		dq[0] &= 0x7f
+		dq[31] |= 1
+		qx, qy = c06G(c, dq)
+		if qx[0] == 0 || qy[0] == 0 {
+			verifReach("end")
+			return
+		}
+		// ... and, for half of the candidates, the pair the standard's t = 0 test exists for: r = n - s
+		// with the digest that makes the remaining equation hold without the public key
+		if lzr == 0 && lzs == 0 && s[31]&1 == 1 && c12InRange(s) {
+			nr := c06SubN(c, make([]byte, 32), s)
+			if nr[0] != 0 {
+				r = nr
+				x1, _ := c06G(c, s)
+				hash = c06SubN(c, r, c06Reduce(c, x1))
+			}
+		}
+	}
+	body := c06EncInt(nil, r, lzr)
+	body = c06EncInt(body, s, lzs)
+	sig := append([]byte{0x30, byte(len(body))}, body...)
+	pub := &ecdsa.PublicKey{Curve: c12EllipticCurve(), X: c06Big(qx), Y: c06Big(qy)}
+	got := verifySM2EC(c, pub, hash, sig)
+
+	var want bool
+	if verifSymbolic() {
+		onCurve := verifAll(_sm2ec.VerifOnCurve(qx, qy), c12Less(qx, c12P), c12Less(qy, c12P))
+		t := c06AddN(c, r, s)
+		p1x, p1y := verifUF("G.x", 32, s), verifUF("G.y", 32, s)
+		p2x, p2y := verifUF("M.x", 32, qx, qy, t), verifUF("M.y", 32, qx, qy, t)
+		sx := verifUF("A.x", 32, p1x, p1y, p2x, p2y)
+		inf := verifUF("A.inf", 1, p1x, p1y, p2x, p2y)[0]&1 == 1
+		rr := c06AddN(c, c06Reduce(c, sx), c06Reduce(c, hash))
+		want = verifAll(c06InRange(c, r), c06InRange(c, s), onCurve, !c06IsZero(c, t), !inf, verifEqBytes(rr, r))
+		verifAssert(got == want, "verification accepts exactly: r, s in [1,n-1], valid key, r+s != 0 mod n, finite sum, (e + x1) mod n = r")
+	} else {
+		// natively: exact integers and the real group
+		ok := c12InRange(r) && c12InRange(s)
+		if ok {
+			t := c06AddN(c, r, s)
+			ok = !c12IsZero(t)
+			if ok {
+				q, err := c.newPoint().SetBytes(append(append([]byte{4}, qx...), qy...))
+				p1, _ := c.newPoint().ScalarBaseMult(s)
+				if err != nil {
+					ok = false
+				} else {
+					p2, _ := c.newPoint().ScalarMult(q, t)
+					x1, xerr := p1.Add(p1, p2).BytesX()
+					ok = xerr == nil && verifEqBytes(c06AddN(c, c06Reduce(c, x1), c06Reduce(c, hash)), r)
+				}
+			}
+		}
+		verifAssert(got == ok, "verification accepts exactly: r, s in [1,n-1], valid key, r+s != 0 mod n, finite sum, (e + x1) mod n = r")
+	}
+	_ = want
+	if got {
+		verifReach("accepted")
 	}
 	verifReach("end")
 }
